@@ -46,6 +46,13 @@ def leaf_roles(prog):
             out.add(k)                                   # key→character table (and its parts)
         elif len(f.get("inputs") or []) == 4 and f["inputs"][1] == "u16" and f["inputs"][3] == "bool":
             out.add(k)                                   # key→layout-entry table
+    # the word-ending events of a method object (finish / commit) called by a sibling event (`self.finish_input_session()` instead of repeating the
+    # three resets) are plumbing, not vocabulary: such a statically resolved call is spliced in like any private helper
+    for k, f in prog.fns.items():
+        imp = f.get("impl") or {}
+        if imp.get("trait") == "context::Method" and f.get("name") in ("finish_input_session", "candidate_committed") and k in out \
+                and len(f["mir"]["blocks"]) <= 60:
+            out.discard(k)
     prog._leaf_roles = out
     return out
 
